@@ -730,8 +730,104 @@ def run_voice(args: tuple[str, str]) -> dict[str, Any]:
     return {"part": f"voice:{start_mode}", "evals": evals, "viol": viol}
 
 
+def run_resubscribe(tier: str) -> dict[str, Any]:
+    """One long-lived client, consecutive sessions: what was left unfinished when a session ended (the first chunks of a camera image)
+    is not part of the next session's stream - also when the application subscribes with the very same callback again - and every
+    message of the new session produces exactly one callback."""
+    env.load()
+    pb = env.pb()
+    viol: list[tuple[str, str, Any]] = []
+    n = 0
+    for ender in ("eof", "disconnect", "force"):
+        for opener in ("two-phase", "connect"):
+            for same_cb in (True, False):
+                w = ConnWorld(client=True, login=True)
+                try:
+                    got: list[Any] = []
+
+                    def cb(st: Any, _g: list[Any] = got) -> None:
+                        _g.append(st)
+
+                    async def on_stop(expected: bool) -> None:
+                        return None
+
+                    plan = [
+                        [pb.CameraImageResponse(key=1, data=b"old-1|", done=False), pb.SensorStateResponse(key=3, state=1.0),
+                         pb.CameraImageResponse(key=2, data=b"old-2|", done=False)],
+                        [pb.CameraImageResponse(key=1, data=b"fresh-1", done=True), pb.SensorStateResponse(key=3, state=2.0),
+                         pb.CameraImageResponse(key=2, data=b"fresh-2a|", done=False), pb.CameraImageResponse(key=2, data=b"fresh-2b", done=True)],
+                        [pb.CameraImageResponse(key=2, data=b"third", done=True), pb.BinarySensorStateResponse(key=4, state=True)],
+                    ]
+                    expect = [
+                        [("SensorState", 3, None)],
+                        [("CameraState", 1, b"fresh-1"), ("SensorState", 3, None), ("CameraState", 2, b"fresh-2a|fresh-2b")],
+                        [("CameraState", 2, b"third"), ("BinarySensorState", 4, None)],
+                    ]
+                    for i, msgs in enumerate(plan):
+                        if opener == "two-phase":
+                            w.spawn(f"start{i}", lambda: w.client.start_connection(on_stop=on_stop))
+                            w.drain()
+                            w.io_connect(w.sock, 0)
+                            w.drain()
+                            w.spawn(f"finish{i}", lambda: w.client.finish_connection(login=True))
+                            last = f"finish{i}"
+                        else:
+                            w.spawn(f"connect{i}", lambda: w.client.connect(on_stop=on_stop, login=True))
+                            w.drain()
+                            w.io_connect(w.sock, 0)
+                            last = f"connect{i}"
+                        w.drain()
+                        w.io_chunk(w.sock, w.dframe(w.hello_resp()) + w.dframe(w.connect_resp()))
+                        w.drain()
+                        if w.outcome(last) != "ok":
+                            raise HarnessError(f"session {i} was not established: {w.results.get(last)}")
+                        del got[:]
+                        if same_cb or i == 0:
+                            w.client.subscribe_states(cb)
+                            sink = got
+                        else:
+                            sink = []
+                            w.client.subscribe_states(sink.append)
+                        for m in msgs:
+                            w.io_chunk(w.sock, w.dframe(m))
+                            w.drain()
+                        n += 1
+                        act = [(type(g).__name__, g.key, getattr(g, "data", None)) for g in sink]
+                        if act != expect[i]:
+                            viol.append((f"resubscribe:session{i + 1}", f"session {i + 1} of one client (previous one ended by {ender}, reopened with {opener}, "
+                                         f"{'the same' if same_cb else 'a new'} callback subscribed): callbacks {act} != expected {expect[i]}",
+                                         {"ender": ender, "opener": opener, "same_cb": same_cb}))
+                        if not same_cb and i > 0 and got:
+                            viol.append((f"resubscribe:old-subscription:session{i + 1}", f"the callback subscribed in an earlier session was called in session {i + 1}: "
+                                         f"{[(type(g).__name__, g.key) for g in got]}", {"ender": ender, "opener": opener}))
+                        sock = w.sock
+                        if ender == "eof":
+                            w.io_eof(sock)
+                        elif ender == "disconnect":
+                            w.spawn(f"disc{i}", lambda: w.client.disconnect())
+                            w.drain()
+                            if not sock.closed:
+                                w.io_chunk(sock, w.dframe(pb.DisconnectResponse()))
+                        else:
+                            w.spawn(f"disc{i}", lambda: w.client.disconnect(force=True))
+                        w.drain()
+                        if not sock.closed:
+                            raise HarnessError(f"session {i} did not end ({ender})")
+                finally:
+                    w.close()
+    seen: set[str] = set()
+    uniq = []
+    for k, c, d in viol:
+        if k not in seen:
+            seen.add(k)
+            uniq.append((k, c, d))
+    return {"part": "resubscribe", "evals": n, "viol": uniq}
+
+
 def _job(j: tuple[Any, ...]) -> dict[str, Any]:
     kind = j[0]
+    if kind == "resub":
+        return run_resubscribe(j[1])
     if kind == "states":
         return run_states(j[1])
     if kind == "camera":
@@ -744,7 +840,7 @@ def _job(j: tuple[Any, ...]) -> dict[str, Any]:
 def run(tier: str, seed: int) -> Result:
     env.load()
     res = Result("C17", "exploration")
-    jobs: list[tuple[Any, ...]] = [("states", tier), ("simple", tier)]
+    jobs: list[tuple[Any, ...]] = [("states", tier), ("simple", tier), ("resub", tier)]
     jobs += [("camera", tier, i) for i in range(len(camera_configs(tier)))]
     jobs += [("voice", tier, sm) for sm in START_MODES]
     ctx = mp.get_context("fork")
